@@ -28,7 +28,7 @@ func batchedAcquire(r *vkit.R) {
 	n := r.N(600, 6000)
 	r.Parallel(n, 16, func(i int, g *vkit.Rand) {
 		srv := bed.NewLimiterServer(bed.LimiterOptions{LeadAll: true, Shards: 1 + i%3})
-		up := fmt.Sprintf("ba%d", i%7)
+		up := fmt.Sprintf("ba%d", i)
 		models := map[string]*Model{}
 		c := &proxyv1alpha1.UpstreamCluster{ObjectMeta: metav1.ObjectMeta{Name: up}}
 		nm := g.Range(2, 3)
@@ -52,7 +52,7 @@ func batchedAcquire(r *vkit.R) {
 			if len(t) > 12 {
 				t = t[len(t)-12:]
 			}
-			r.Violation(sig, what, map[string]interface{}{"upstream": up, "schemas": c.Spec.FlowControl.Schemas, "lastRequests": t,
+			viol(r, srv, sig, what, map[string]interface{}{"upstream": up, "schemas": c.Spec.FlowControl.Schemas, "lastRequests": t,
 				"how": "bed.NewLimiterServer(LeadAll); ApplyUpstream; DoAcquire with the listed Spec.Requests (one instance, one request id per request)"})
 		}
 		for op := 0; op < 30; op++ {
@@ -224,6 +224,7 @@ func batchedAcquire(r *vkit.R) {
 // fresh bucket holds at most `burst` tokens, which is what the bound allows a window to start with). Limits include the
 // smallest ones (qps 1, burst 1) and asks the largest (MaxInt32).
 func tokenBucketReconfigured(r *vkit.R) {
+	phaseTag = "R"
 	n := r.N(60, 600)
 	cfgs := [][2]int32{{1, 1}, {1, 100}, {100, 1}, {1000, 50}, {5000, 500}, {200, 200}, {20000, 3}, {1, math.MaxInt32}, {math.MaxInt32, math.MaxInt32}, {math.MaxInt32, 1}}
 	r.Parallel(n, 8, func(i int, g *vkit.Rand) {
@@ -269,7 +270,7 @@ func tokenBucketReconfigured(r *vkit.R) {
 				rs, err := t.acquire(fmt.Sprintf("gw%d", q%3), "tb", int64(q+1), ask)
 				t1 := bed.Now()
 				if err != nil {
-					r.Violation("C08/tokenbucket/reconfigured/acquire-failed", fmt.Sprintf("phase %d (qps=%d burst=%d): DoAcquire(%d) failed: %v", ph, qps, burst, ask, err), nil)
+					viol(r, t.srv, "C08/tokenbucket/reconfigured/acquire-failed", fmt.Sprintf("phase %d (qps=%d burst=%d): DoAcquire(%d) failed: %v", ph, qps, burst, ask, err), nil)
 					return
 				}
 				gr := grant{Asked: ask, Call: t0, Return: t1}
@@ -283,7 +284,7 @@ func tokenBucketReconfigured(r *vkit.R) {
 					}
 				}
 				if !legal || rs.Error != "" {
-					r.Violation("C08/tokenbucket/reconfigured/grant-not-in-halving-series", fmt.Sprintf("phase %d (qps=%d burst=%d): asked %d, granted %d accept=%v error=%q", ph, qps, burst, ask, gr.Granted, rs.Accept, rs.Error), gr)
+					viol(r, t.srv, "C08/tokenbucket/reconfigured/grant-not-in-halving-series", fmt.Sprintf("phase %d (qps=%d burst=%d): asked %d, granted %d accept=%v error=%q", ph, qps, burst, ask, gr.Granted, rs.Accept, rs.Error), gr)
 					return
 				}
 				if gr.Granted != ask {
@@ -301,7 +302,7 @@ func tokenBucketReconfigured(r *vkit.R) {
 					sum += int64(grants[b].Granted)
 					T := float64(grants[b].Return-grants[a].Call) / 1e9
 					if allowed := float64(burst) + float64(qps)*T + 1; float64(sum) > allowed {
-						r.Violation("C08/tokenbucket/reconfigured/window-bound",
+						viol(r, t.srv, "C08/tokenbucket/reconfigured/window-bound",
 							fmt.Sprintf("phase %d after re-configuration to qps=%d burst=%d: %d tokens granted inside a window of %.3f ms, more than burst+qps*T = %.1f", ph, qps, burst, sum, T*1e3, allowed-1),
 							map[string]interface{}{"qps": qps, "burst": burst, "phase": ph, "grants_in_phase": len(grants), "window": []grant{grants[a], grants[b]}})
 						return
@@ -326,6 +327,7 @@ var _ = strings.Repeat
 // group the timestamps the bucket sees are non-decreasing and the bound is exact; the delivery runs in a goroutine of its own,
 // outside that mutex, and really races with a call.
 func tokenBucketReconfiguredWhileAsked(r *vkit.R) {
+	phaseTag = "W"
 	n := r.N(60, 600)
 	cfgs := [][2]int32{{1, 1}, {100, 5}, {1000, 50}, {5000, 500}, {200, 200}, {20000, 3}}
 	r.Parallel(n, 8, func(i int, g *vkit.Rand) {
@@ -363,7 +365,7 @@ func tokenBucketReconfiguredWhileAsked(r *vkit.R) {
 					t1 := bed.Now()
 					turn.Unlock()
 					if err != nil {
-						r.Violation("C08/tokenbucket/reconfigured-while-asked/acquire-failed", fmt.Sprintf("DoAcquire(%d) failed while the bucket was being re-configured: %v", ask, err), nil)
+						viol(r, t.srv, "C08/tokenbucket/reconfigured-while-asked/acquire-failed", fmt.Sprintf("DoAcquire(%d) failed while the bucket was being re-configured: %v", ask, err), nil)
 						return
 					}
 					gr := grant{Inst: w, Asked: ask, Call: t0, Return: t1}
@@ -377,7 +379,7 @@ func tokenBucketReconfiguredWhileAsked(r *vkit.R) {
 						}
 					}
 					if !legal || rs.Error != "" {
-						r.Violation("C08/tokenbucket/reconfigured-while-asked/grant-not-in-halving-series", fmt.Sprintf("asked %d, granted %d accept=%v error=%q", ask, gr.Granted, rs.Accept, rs.Error), gr)
+						viol(r, t.srv, "C08/tokenbucket/reconfigured-while-asked/grant-not-in-halving-series", fmt.Sprintf("asked %d, granted %d accept=%v error=%q", ask, gr.Granted, rs.Accept, rs.Error), gr)
 						return
 					}
 					if gr.Granted > 0 {
@@ -426,7 +428,7 @@ func tokenBucketReconfiguredWhileAsked(r *vkit.R) {
 					sum += int64(gs[b].Granted)
 					T := float64(gs[b].Return-gs[a].Call) / 1e9
 					if allowed := float64(burst) + float64(qps)*T + 1; float64(sum) > allowed {
-						r.Violation("C08/tokenbucket/reconfigured-while-asked/window-bound/"+side,
+						viol(r, t.srv, "C08/tokenbucket/reconfigured-while-asked/window-bound/"+side,
 							fmt.Sprintf("re-configuration qps/burst %v -> %v delivered while %d instances were asking: the grants wholly %s the change (judged with qps=%d burst=%d) hold a window of %.3f ms with %d tokens, more than burst+qps*T = %.1f",
 								oldC, newC, k, side, qps, burst, T*1e3, sum, allowed-1),
 							map[string]interface{}{"old": oldC, "new": newC, "change_ns": []int64{ta, tb}, "window": []grant{gs[a], gs[b]}, "grants_on_this_side": len(gs)})
